@@ -176,7 +176,7 @@ PROPS["C14"] = {
                   "the proof and observed on the real binary.",
 }
 PROPS["C16"] = {
-    "theorems": ["C16_clone_effects", "C16_compress_effects"],
+    "theorems": ["C16_clone_effects", "C16_compress_effects", "C16_clone_source_touches_no_other_file"],
     "suites": ["clitrace", "clirt", "clirefuse"], "needs_cli": True,
     "rule": "strace -f of the real binary in all clone modes (plain, seed file, stdin seed, in place, http, verify) and compress "
             "modes (file, stdin, force): canonical list of paths opened with write/create/truncate, unlinked or renamed inside "
@@ -261,8 +261,8 @@ PROPS["C17"] = {
 }
 
 PROPS["C01"] = {
-    "theorems": ["C01_roundtrip", "C01_archive_records_source", "C01_input_delivery_irrelevant", "C01_roundtrip_over_http"],
-    "suites": ["clirt", "compress", "conform", "clihuge"], "needs_cli": True,
+    "theorems": ["C01_roundtrip", "C01_archive_records_source", "C01_input_delivery_irrelevant", "C01_roundtrip_over_http", "C01_regular_output_always_resized"],
+    "suites": ["clirt", "compress", "conform", "clihuge", "clirefuse"], "needs_cli": True,
     "rule": "cases: generated sources (empty, 1 byte, shorter than window/min chunk, around min/max, duplicate heavy, > 1 MiB) x "
             "valid configurations (three chunkers, hash length 4..64, none/brotli/zstd/lzma at their levels, buffered-chunks 1..64) through "
             "`bita compress` then `bita clone` locally and over http and `bita info`; library writer + reader; every archive also "
@@ -292,7 +292,7 @@ ALL_SECTIONS = ["rolling", "chunker", "header", "proto", "levels", "versions", "
 _CHUNK = ["rolling", "chunker"]
 _ARCH = ["header", "proto", "levels"]
 SECTIONS_OF = {
-    "C01": _CHUNK + _ARCH + ["versions", "pipeline", "compresssteps"],
+    "C01": _CHUNK + _ARCH + ["versions", "pipeline", "compresssteps", "clonesteps"],
     "C02": ["clonesteps"], "C03": ["clonesteps"], "C13": [],
     "C05": ["clonesteps"], "C06": ["clonesteps"],
     "C04": _ARCH + ["pincheck"], "C07": [], "C08": [],
